@@ -121,6 +121,7 @@ def gen(rng, tier, index):
     spec["how"] = gens.pick(rng, forms.CONFIGURE)
     spec["xform"] = gens.pick(rng, forms.PRESENT)
     spec["yform"] = gens.pick(rng, forms.PRESENT)
+    spec["carry"] = gens.pick(rng, forms.CARRY)
     return {
         "spec": spec,
         "X": X,
@@ -347,6 +348,11 @@ def run(case, j):
             params.update(score_threshold_type=thr[0], score_threshold=float(thr[1]))
         for k_, v_ in params.items():  # VoronoiFPS takes **kwargs, so set_params does not know n_to_select
             setattr(est, k_, v_)
+        if li > 0 and spec.get("carry", "same") != "same":
+            # the chain continues on a deep copy / an unpickled copy of the fitted object
+            tr.detach()
+            est = j.lib("carry", forms.carry, est, spec["carry"], j)
+            tr.attach(est)
         before = len(tr.events)
         j.lib("fit", sel.fit, est, X, y, spec, warm=li > 0)
         j.note("fits")
